@@ -184,6 +184,27 @@ def reader_resets_queue():
     return False
 
 
+def queue_per_path():
+    """is the module-level `reading_queue` a mapping (one queue per key) rather than one queue?"""
+    tree = parse(os.path.join(PKG, "input_parser", "input_syntax_reader.py"))
+    for st in tree.body:
+        if isinstance(st, (ast.Assign, ast.AnnAssign)) and st.value is not None:
+            targets = st.targets if isinstance(st, ast.Assign) else [st.target]
+            if any(isinstance(t, ast.Name) and t.id == "reading_queue" for t in targets):
+                v = st.value
+                if isinstance(v, (ast.Dict, ast.DictComp)):
+                    return True
+                if isinstance(v, ast.Call) and ast.unparse(v.func).split(".")[-1] in ("dict", "defaultdict", "OrderedDict", "WeakValueDictionary", "WeakKeyDictionary"):
+                    return True
+    for node in ast.walk(tree):  # used as a mapping anywhere: reading_queue[...] / .setdefault / .get
+        if isinstance(node, ast.Subscript) and isinstance(node.value, ast.Name) and node.value.id == "reading_queue":
+            return True
+        if isinstance(node, ast.Call) and isinstance(node.func, ast.Attribute) and node.func.attr in ("setdefault", "get", "items", "keys"):
+            if isinstance(node.func.value, ast.Name) and node.func.value.id == "reading_queue":
+                return True
+    return False
+
+
 def restart_before_parse(fn, parser_text):
     """inside fn: is there a call parser.restart() positioned (in source order) before the first parser.parse(...)"""
     restart_at = parse_at = None
@@ -437,6 +458,8 @@ def generate(write):
     ) + "]\n\n"
     body += "/-- input_syntax_reader.read_input_syntax rebinds the module-global queue to an empty one before its first yield -/\n"
     body += f"def readerResetsQueue : Bool := {b(reader_resets_queue())}\n"
+    body += "/-- input_syntax_reader.reading_queue is a mapping (one queue per key, e.g. per path) rather than one queue -/\n"
+    body += f"def queuePerPath : Bool := {b(queue_per_path())}\n"
     body += "/-- parser_base.MCNP_Parser.restart calls self.log.clear_queue() -/\n"
     body += f"def restartClearsLog : Bool := {b(restart_clears)}\n"
     body += "/-- sly.yacc.Parser.parse calls self.restart() (so every parse() starts with restart) -/\n"
